@@ -717,7 +717,7 @@ fn list_sweep(cases: &[Vec<u8>], sh: &util::Shard) -> Report {
     rep
 }
 
-fn operator_cases() -> Vec<Vec<u8>> {
+pub fn operator_cases() -> Vec<Vec<u8>> {
     let mut v = Vec::new();
     let chars = OPCH;
     for len in 1..=4 {
@@ -733,7 +733,7 @@ fn operator_cases() -> Vec<Vec<u8>> {
     v
 }
 
-fn number_cases(maxlen: usize) -> Vec<Vec<u8>> {
+pub fn number_cases(maxlen: usize) -> Vec<Vec<u8>> {
     let chars = b"019.eE+-_";
     let mut v = Vec::new();
     for len in 1..=maxlen {
@@ -747,7 +747,7 @@ fn number_cases(maxlen: usize) -> Vec<Vec<u8>> {
     v
 }
 
-fn string_cases(quick: bool) -> Vec<Vec<u8>> {
+pub fn string_cases(quick: bool) -> Vec<Vec<u8>> {
     let mut v: Vec<Vec<u8>> = Vec::new();
     let wrap = |pre: &[u8], body: &[u8], post: &[u8]| {
         let mut x = pre.to_vec();
@@ -806,10 +806,30 @@ fn string_cases(quick: bool) -> Vec<Vec<u8>> {
             }
         });
     }
+    // structured 2-, 3- and 4-byte forms: every class of lead byte x the border values of each
+    // continuation position (the well-formedness table of the Unicode standard, table 3-7)
+    let leads: &[u8] = &[0xC2, 0xDF, 0xE0, 0xE1, 0xEC, 0xED, 0xEE, 0xEF, 0xF0, 0xF1, 0xF3, 0xF4, 0xF5, 0xF8];
+    let seconds: &[u8] = &[0x7F, 0x80, 0x8F, 0x90, 0x9F, 0xA0, 0xBF, 0xC0];
+    let later: &[u8] = &[0x7F, 0x80, 0xBF, 0xC0];
+    for &l in leads {
+        for &b2 in seconds {
+            for &b3 in later {
+                for &b4 in later {
+                    let s = [l, b2, b3, b4];
+                    v.push(wrap(b"\"", &s, b"\""));
+                    v.push(wrap(b"'a", &s, b"b'"));
+                    v.push(wrap(b"|||\n ", &s, b"\n|||"));
+                    v.push(wrap(b"/*", &s, b"*/"));
+                    v.push(wrap(b"", &s, b""));
+                    v.push(wrap(b"x", &s, b"y"));
+                }
+            }
+        }
+    }
     v
 }
 
-fn textblock_cases(maxlines: usize) -> Vec<Vec<u8>> {
+pub fn textblock_cases(maxlines: usize) -> Vec<Vec<u8>> {
     let shapes: &[&[u8]] = &[b"\n", b"  a\n", b"    b\n", b" c\n", b"\td\n", b"  e\r\n", b"  |||\n", b"  \n", b"\r\n", b"   \n"];
     let starts: &[&[u8]] = &[b"|||\n", b"|||-\n", b"||| \t\r\n"];
     let ends: &[&[u8]] = &[b"|||", b"  |||", b" |||", b"\t|||", b"    |||", b"x|||", b""];
